@@ -293,8 +293,13 @@ class _ExprInliner(ast.NodeTransformer):
             given[k.arg] = k.value
         for p in params:
             v = given.get(p, defaults.get(p))
-            if v is None or not _pure_arg(v):
+            if v is None:
                 return n
+            if not _pure_arg(v):
+                # an argument with effects / cost may still be substituted when the helper uses the parameter exactly once
+                uses = sum(1 for x in ast.walk(body[0].value) if isinstance(x, ast.Name) and x.id == p)
+                if uses != 1 or not isinstance(v, (ast.GeneratorExp, ast.ListComp, ast.Call, ast.Dict, ast.List, ast.Tuple, ast.Set)):
+                    return n
             mapping[p] = v
         # the callee must not bind names itself (comprehension variables are fine)
         expr = copy.deepcopy(body[0].value)
@@ -472,8 +477,51 @@ def expand(prog, f, depth=2, local_only=False, skip_names=()):
         new_body.append(_inline_stmt_exprs(prog, f, st, local_defs, depth, skip_names))
     root.body = new_body
     _inline_captures(root)
+    from .desugar import _FuseGen
+
+    _propagate_generator_temps(root)
+    root = _FuseGen().visit(root)   # generator arguments substituted into helper comprehensions fuse with them
     ast.fix_missing_locations(root)
     return root
+
+
+def _propagate_generator_temps(root):
+    """`t = (E for ...)` bound once and read once, by the statement that follows it, is written at its use (the temporaries the
+    inliner makes for generator arguments)."""
+    cnt = {}
+    for n in ast.walk(root):
+        if isinstance(n, ast.Name):
+            s_, l_ = cnt.get(n.id, (0, 0))
+            cnt[n.id] = (s_ + 1, l_) if isinstance(n.ctx, (ast.Store, ast.Del)) else (s_, l_ + 1)
+
+    def block(stmts):
+        out = []
+        i = 0
+        while i < len(stmts):
+            st = stmts[i]
+            nxt = stmts[i + 1] if i + 1 < len(stmts) else None
+            if isinstance(st, ast.Assign) and len(st.targets) == 1 and isinstance(st.targets[0], ast.Name) \
+                    and isinstance(st.value, (ast.GeneratorExp, ast.ListComp)) and cnt.get(st.targets[0].id) == (1, 1) and nxt is not None \
+                    and sum(1 for x in ast.walk(nxt) if isinstance(x, ast.Name) and x.id == st.targets[0].id) == 1:
+                nm, val = st.targets[0].id, st.value
+
+                class S(ast.NodeTransformer):
+                    def visit_Name(self, x):
+                        return val if x.id == nm and isinstance(x.ctx, ast.Load) else x
+                stmts[i + 1] = S().visit(nxt)
+                i += 1
+                continue
+            for fld in ("body", "orelse", "finalbody"):
+                b = getattr(st, fld, None)
+                if isinstance(b, list) and b and isinstance(b[0], ast.stmt):
+                    setattr(st, fld, block(b))
+            for h in getattr(st, "handlers", []) or []:
+                h.body = block(h.body)
+            out.append(st)
+            i += 1
+        return out
+
+    root.body = block(root.body)
 
 
 def _prune_const_ifs(stmts):
